@@ -62,7 +62,24 @@ def gen(rng, tier):
             # an index with repeated / unordered labels: rows are dropped by POSITION, never by label
             fr["index"] = rng.choice([[j % 3 for j in range(nrows)], [f"s{j // 2}" for j in range(nrows)],
                                       [(j * 7 + 3) % nrows if nrows % 7 else (j * 5 + 3) % nrows for j in range(nrows)]])
-        cases.append({"formula": _formula(rng, na == "pass"), "frame": fr, "na": na, "missing": missing, "kind": na})
+        fml = _formula(rng, na == "pass")
+        if rng.random() < 0.3:
+            import re as _re
+            called = sorted(set(_re.findall(r"([A-Za-z_][A-Za-z_0-9]*)\(", fml)))
+            called = [nm for nm in called if not _re.search(r"(?<![A-Za-z_0-9.])" + nm + r"(?![A-Za-z_0-9(])", fml)]
+            have = [col["name"] for col in fr["columns"]]
+            for k_, nm in enumerate(called):
+                if nm not in have:
+                    # a column that only shares its NAME with a function of the formula is not used by it
+                    fr["columns"].append(dm.col(nm, "float", [None if (j + k_) % 4 == 0 else str(j) for j in range(nrows)]))
+        if rng.random() < 0.04:
+            # a column whose NAME is the empty string, with a missing value (listed finding KF-C09-1 when the
+            # formula contains a literal)
+            for col in fr["columns"]:
+                if col["name"] == "junk":
+                    col["name"] = ""
+                    col["values"][0] = None
+        cases.append({"formula": fml, "frame": fr, "na": na, "missing": missing, "kind": na})
     return cases
 
 
@@ -80,6 +97,16 @@ def _used(d, df):
 
 
 def oracle(c):
+    import re as _re
+    msg = _oracle(c)
+    if msg and any(col["name"] == "" for col in c["frame"]["columns"]) and _re.search(r"\d|'|\"", c["formula"].split("~", 1)[-1]):
+        # listed finding KF-C09-1: a literal inside a call records the variable name "", so a column whose name
+        # is the empty string counts as used
+        return "[class:empty_column_name] " + msg
+    return msg
+
+
+def _oracle(c):
     import numpy as np
     from formulae import design_matrices, model_description
     df = dm.to_pandas(c["frame"])
@@ -108,7 +135,9 @@ def oracle(c):
             names.add(m.group(1))
     used = [v for v in df.columns if v in names]
     incomplete = df[used].isna().any(axis=1).to_numpy() if used else np.zeros(len(df), dtype=bool)
-    complete_df = df[~incomplete]
+    # the reference run sees the complete rows of the USED columns only (it must not inherit a fault in the way
+    # unused columns are handled)
+    complete_df = df.loc[~incomplete, used] if used else df[~incomplete]
 
     def mats(d):
         out = []
@@ -161,13 +190,13 @@ def oracle(c):
             continue
         if g.shape[0] != len(df):
             return f"{f!r}: na_action='pass' {name} has {g.shape[0]} rows for {len(df)} observations"
-        if w is not None and not np.allclose(g[keep], w, rtol=1e-9, atol=1e-9, equal_nan=True):
+        if w is not None and (g[keep].shape != w.shape or not np.allclose(g[keep], w, rtol=1e-9, atol=1e-9, equal_nan=True)):
             return f"{f!r}: na_action='pass' encodes complete rows differently from 'drop' in the {name} matrix"
     if d.common is not None:
         M = got[1]
         for tname, t in d.common.terms.items():
             sl = d.common.slices[tname]
-            tv = [v for v in getattr(t, "var_names", set()) if v in df.columns]
+            tv = [v for v in getattr(t, "var_names", set()) if v in df.columns and v != ""]
             miss = df[tv].isna().any(axis=1).to_numpy() if tv else np.zeros(len(df), dtype=bool)
             isnan = np.isnan(M[:, sl]).all(axis=1)
             anynan = np.isnan(M[:, sl]).any(axis=1)
